@@ -582,6 +582,7 @@ Section EntryTotal.
       exists r, louvain_partitions_t teqb tltb lf sf g weighted res thr perms = Ok r.
   Proof.
     intros lf sf g weighted res thr perms W Hwok Hres Hlf Hsf Hsh. unfold louvain_partitions_t.
+    rewrite (weights_ok_guard_false g weighted Hwok).
     destruct (convert_graph_total teqb tltb teqb_spec tltb_asym tltb_total g weighted W) as (gu & Hgu).
     rewrite Hgu. cbn [bind].
     destruct (convert_graph_struct teqb tltb teqb_spec tltb_asym tltb_total g weighted gu W Hgu)
@@ -641,5 +642,56 @@ Section EntryTotal.
     - exact (louvain_partitions_levels_ok teqb tltb teqb_spec tltb_asym tltb_total lf sf g weighted res thr perms ls W Hp).
     - exact (proj1 (louvain_communities_of_partitions teqb tltb teqb_spec tltb_asym tltb_total
                       lf sf g weighted res thr perms ls W Hp)).
+  Qed.
+
+  (* With the guard of F23 in the model the non-negativity half of [weights_ok] is no longer a
+     hypothesis: a weighted call on a graph all of whose edges HAVE a weight is answered either by
+     the guard (some weight is negative: InvalidArgument from both entry points) or, the weights
+     being non-negative, by [louvain_total]. *)
+  Definition has_negative_edge (g : gstate T A) : Prop :=
+    exists e z, In e (get_all_edges g) /\ ew e = Some z /\ (z < 0)%Z.
+
+  Theorem louvain_total_guarded :
+    forall lf sf (g : gstate T A) weighted res thr perms,
+      WF teqb tltb g -> (weighted = true -> all_real (get_all_edges g)) -> 0 <= res ->
+      (length (nodes_vec g) < lf)%nat -> (length (nodes_vec g) ^ length (nodes_vec g) <= sf)%nat ->
+      shuffle_ok perms (length (nodes_vec g)) ->
+      (weighted = true /\ has_negative_edge g /\
+       louvain_partitions teqb tltb lf sf g weighted res thr perms = Err InvalidArgument /\
+       louvain_communities teqb tltb lf sf g weighted res thr perms = Err InvalidArgument) \/
+      (weights_ok g weighted /\
+       exists ls, louvain_partitions teqb tltb lf sf g weighted res thr perms = Ok ls /\
+                  levels_ok (map nname (nodes_vec g)) ls /\
+                  louvain_communities teqb tltb lf sf g weighted res thr perms = Ok (last ls [])).
+  Proof.
+    intros lf sf g weighted res thr perms W Hreal Hres Hlf Hsf Hsh.
+    destruct (negative_weight_guard g weighted) eqn:Hg.
+    - left. unfold negative_weight_guard in Hg. apply andb_true_iff in Hg. destruct Hg as [Hw Hn].
+      apply has_negative_weight_true_iff in Hn. split; [exact Hw|]. split; [exact Hn|].
+      destruct (louvain_negative_weights_rejected teqb tltb lf sf g weighted res thr perms Hw Hn) as [_ [Hp Hc]].
+      split; assumption.
+    - right. pose proof (guard_false_weights_ok g weighted Hg Hreal) as Hwok. split; [exact Hwok|].
+      exact (louvain_total lf sf g weighted res thr perms W Hwok Hres Hlf Hsf Hsh).
+  Qed.
+
+  (* hence, on these inputs, InvalidArgument is returned for the graphs with a negative weight and
+     ONLY for them *)
+  Corollary louvain_invalid_argument_iff :
+    forall lf sf (g : gstate T A) weighted res thr perms,
+      WF teqb tltb g -> (weighted = true -> all_real (get_all_edges g)) -> 0 <= res ->
+      (length (nodes_vec g) < lf)%nat -> (length (nodes_vec g) ^ length (nodes_vec g) <= sf)%nat ->
+      shuffle_ok perms (length (nodes_vec g)) ->
+      (louvain_partitions teqb tltb lf sf g weighted res thr perms = Err InvalidArgument <->
+       weighted = true /\ has_negative_edge g) /\
+      (louvain_communities teqb tltb lf sf g weighted res thr perms = Err InvalidArgument <->
+       weighted = true /\ has_negative_edge g).
+  Proof.
+    intros lf sf g weighted res thr perms W Hreal Hres Hlf Hsf Hsh.
+    destruct (louvain_total_guarded lf sf g weighted res thr perms W Hreal Hres Hlf Hsf Hsh)
+      as [[Hw [Hn [Hp Hc]]]|[_ [ls [Hp [_ Hc]]]]].
+    - split; split; auto.
+    - split; split; try (intro H; congruence); intros [Hw Hn];
+        destruct (louvain_negative_weights_rejected teqb tltb lf sf g weighted res thr perms Hw Hn) as [_ [Hp' Hc']];
+        congruence.
   Qed.
 End EntryTotal.
